@@ -102,6 +102,13 @@ fn main() {
         }
         #[cfg(all(feature = "pmtree", not(feature = "stateless")))]
         "storage" => cmd_storage(&args),
+        #[cfg(all(feature = "pmtree", not(feature = "stateless")))]
+        "crash-child" => {
+            let hist: Vec<serde_json::Value> = serde_json::from_str(&std::fs::read_to_string(arg(&args, "--hist").unwrap()).unwrap()).unwrap();
+            let cfg: serde_json::Value = serde_json::from_str(arg(&args, "--cfg").unwrap()).unwrap();
+            storage_exec::crash_child(arg(&args, "--d").unwrap().parse().unwrap(), &cfg, arg(&args, "--k").unwrap().parse().unwrap(), &hist,
+                                      arg(&args, "--log").unwrap());
+        }
         c => {
             eprintln!("unknown command {c}");
             std::process::exit(2);
